@@ -760,6 +760,10 @@ func (p *Prog) ConstFuncTable(g *ssa.Global) map[string]*ssa.Function {
 // returnedFuncs: v is (a component of) the result of a static call of a module function all of whose returns
 // deliver, in that position, a function literal or named function: those functions.
 func returnedFuncs(v ssa.Value) []*ssa.Function {
+	// a function-typed field of a struct value that a module function returned ("p := t.payload(); p.run()")
+	if src, fld, ok := structFieldOf(v); ok {
+		return returnedStructFieldFuncs(src, fld)
+	}
 	idx := -1
 	if ex, ok := v.(*ssa.Extract); ok {
 		idx = ex.Index
@@ -794,6 +798,90 @@ func returnedFuncs(v ssa.Value) []*ssa.Function {
 			f := funcArg(rt.Results[pos])
 			if f == nil {
 				// a named result spilled to a cell, or anything else: give up (the call stays opaque)
+				return nil
+			}
+			if !seen[f] {
+				seen[f] = true
+				out = append(out, f)
+			}
+		}
+	}
+	return out
+}
+
+// structFieldOf: v reads field fld of a struct value src - directly (Field) or through a local variable that
+// holds a copy of it (load of FieldAddr of an Alloc with exactly one whole-struct store).
+func structFieldOf(v ssa.Value) (src ssa.Value, fld int, ok bool) {
+	switch x := v.(type) {
+	case *ssa.Field:
+		return x.X, x.Field, true
+	case *ssa.UnOp:
+		fa, isFA := x.X.(*ssa.FieldAddr)
+		if !isFA {
+			return nil, 0, false
+		}
+		al, isAl := fa.X.(*ssa.Alloc)
+		if !isAl || al.Referrers() == nil {
+			return nil, 0, false
+		}
+		var whole []ssa.Value
+		for _, r := range *al.Referrers() {
+			if st, ok := r.(*ssa.Store); ok && st.Addr == ssa.Value(al) {
+				whole = append(whole, st.Val)
+			}
+		}
+		if len(whole) == 1 {
+			return whole[0], fa.Field, true
+		}
+	}
+	return nil, 0, false
+}
+
+// returnedStructFieldFuncs: src is the struct result of a static call of a module function; the function
+// literals stored into field fld of the struct literals that callee returns.
+func returnedStructFieldFuncs(src ssa.Value, fld int) []*ssa.Function {
+	call, ok := src.(*ssa.Call)
+	if !ok {
+		return nil
+	}
+	fac := call.Call.StaticCallee()
+	if fac == nil || fac.Blocks == nil {
+		return nil
+	}
+	var out []*ssa.Function
+	seen := map[*ssa.Function]bool{}
+	for _, b := range fac.Blocks {
+		for _, in := range b.Instrs {
+			rt, ok := in.(*ssa.Return)
+			if !ok {
+				continue
+			}
+			if len(rt.Results) != 1 {
+				return nil
+			}
+			ld, ok := rt.Results[0].(*ssa.UnOp)
+			if !ok {
+				return nil
+			}
+			al, ok := ld.X.(*ssa.Alloc)
+			if !ok || al.Referrers() == nil {
+				return nil
+			}
+			var f *ssa.Function
+			n := 0
+			for _, r := range *al.Referrers() {
+				fa, ok := r.(*ssa.FieldAddr)
+				if !ok || fa.Field != fld || fa.Referrers() == nil {
+					continue
+				}
+				for _, rr := range *fa.Referrers() {
+					if st, ok := rr.(*ssa.Store); ok && st.Addr == ssa.Value(fa) {
+						n++
+						f = funcArg(st.Val)
+					}
+				}
+			}
+			if n != 1 || f == nil {
 				return nil
 			}
 			if !seen[f] {
